@@ -9,6 +9,7 @@ client order id alphabet [.A-Za-z0-9:/_-]) at a solver-chosen position class; de
 """
 import datetime
 import inspect
+import random
 import time as _time
 import types
 from decimal import Decimal
@@ -38,8 +39,10 @@ META = dict(
            "bitstamp.helpers -> recorder of (key, message); HMAC-SHA256 itself is trusted",
            "the names `time` and `datetime` in the client modules -> proxies whose time()/now()/utcnow() read the scenario "
            "clock", "the request environment (clock reading x local time zone x limiter) is one solver choice from 5 combinations "
-           "(quick) / the full product of 3 clocks x {UTC0, JST-9, ART3} x {no limiter, 5 s, 0.25 s} (thorough)", "the clients' optional limiter (tb=) -> None or an object "
-           "whose consume() returns 5 s (thorough: also 0.25 s); asyncio.sleep in the client modules advances the scenario clock", "uuid.uuid4 deterministic and distinct",
+           "(quick) / the full product of 3 clocks x {UTC0, JST-9, ART3} x {no limiter, 5 s, 0.25 s} x {PRNG reseeded, "
+           "not reseeded} (thorough)", "the clients' optional limiter (tb=) -> None or an object "
+           "whose consume() returns 5 s (thorough: also 0.25 s); asyncio.sleep in the client modules advances the scenario clock", "uuid.uuid4 deterministic and distinct", "the application reseeding `random` before each request is part of "
+           "the environment choice",
            "wire = yarl.URL(url).update_query(params).raw_query_string and aiohttp.FormData(data)() body"],
     assumptions=["aiohttp serialises `params` through yarl and `data` through FormData exactly as the installed versions "
                  "do (that code is executed, not modelled)", "the character-level claim is for one free ASCII character "
@@ -54,8 +57,11 @@ SPECIALS = list(".:/_-@+ %&=?#")
 CLOCKS = [1700000000.0004, 1700000000.4995, 1700000000.9996]
 # (clock reading, local time zone, limiter wait): the environment of a request, one solver choice (the three dimensions
 # are independent of each other and of the argument under test; the full product is the thorough tier's)
-ENVS = [(0, "UTC0", None), (1, "UTC0", None), (2, "ART3", None), (0, "UTC0", 5.0), (1, "ART3", 5.0)]
-ENVS_THOROUGH = [(c, z, w) for c in range(3) for z in ("UTC0", "JST-9", "ART3") for w in (None, 5.0, 0.25)]
+# 4th field: the application reseeds the process-wide PRNG before each request (nonces must not repeat because of it)
+ENVS = [(0, "UTC0", None, False), (1, "UTC0", None, True), (2, "ART3", None, False), (0, "UTC0", 5.0, False),
+        (1, "ART3", 5.0, True)]
+ENVS_THOROUGH = [(c, z, w, r) for c in range(3) for z in ("UTC0", "JST-9", "ART3") for w in (None, 5.0, 0.25)
+                 for r in (False, True)]
 EXTRA_DECIMALS = ["12.50", "1E-8", "3.1E+4"]      # extra keyword arguments may be decimals of any exponent
 
 
@@ -146,6 +152,12 @@ def _strings(ctx, tier):
     return gen
 
 
+class _RandomRestore:
+    """entry for ctx.patches that puts the process-wide PRNG state back at the end of the path"""
+    def __setattr__(self, attr, old):
+        random.setstate(old)
+
+
 class _TimeProxy:
     """the name `time` inside a client module: time() reads the scenario clock, everything else is the real module"""
     def __init__(self, clk):
@@ -182,7 +194,8 @@ def _clock_env(ctx, modules, tier="quick"):
     solver choice (a timestamp must not depend on it).  Returns (clock cell, limiter wait)."""
     from .c17_wire import _local_zone
     envs = ENVS_THOROUGH if tier == "thorough" else ENVS
-    ci, zone, wait = envs[ctx.choice("environment", len(envs))]
+    ci, zone, wait, reseeds = envs[ctx.choice("environment", len(envs))]
+    ctx.scratch["c16_reseeds"] = reseeds
     clk = [CLOCKS[ci]]
     _local_zone(ctx, [zone])
     found = False
@@ -266,11 +279,16 @@ def bitstamp_endpoint(ctx, method="get_order_status", tier="quick"):
     kw = _args_for(fn, gen, dec, lambda: {"extra_option": gen("extra_kwarg"),
                                           "extra_decimal": Decimal(EXTRA_DECIMALS[ctx.choice("extra_decimal",
                                                                                              len(EXTRA_DECIMALS))])})
+    # the application may reseed the process-wide PRNG between requests (e.g. a strategy that seeds `random` at the
+    # start of every cycle): nonces must not repeat because of it
+    reseeds = ctx.scratch["c16_reseeds"]
+    ctx.patches.append((_RandomRestore(), "state", random.getstate()))
     sent_at = []
-    run(fn(**kw))
-    sent_at.append(clk[0])
-    run(fn(**kw))
-    sent_at.append(clk[0])
+    for _ in range(2):
+        if reseeds:
+            random.seed(1234)
+        run(fn(**kw))
+        sent_at.append(clk[0])
     nonces = []
     for i, call in enumerate(sess.calls):
         h = call["headers"]
